@@ -53,7 +53,13 @@ func init() {
 		name := concStr(args[0], "verifhook.Point")
 		p.env.pointHits[name]++
 		p.env.effects = append(p.env.effects, effect{kind: "point", label: fmt.Sprintf("%s#%d", name, p.env.pointHits[name])})
-		p.sched.yield("point:" + name)
+		th := p.sched.cur
+		if th.pointHits == nil {
+			th.pointHits = map[string]int{}
+		}
+		th.pointHits[name]++
+		// "NAME#k": the k-th time this thread reaches the boundary NAME
+		p.sched.yield(fmt.Sprintf("point:%s#%d", name, th.pointHits[name]))
 		return nil
 	}
 	externals[hookPkg+".SetCallback"] = func(fr *frame, args []value) value { return nil }
